@@ -222,6 +222,12 @@ func (c *LocalReusableWorkflowCache) FindMetadata(spec string) (*ReusableWorkflo
 	}
 
 	file := filepath.Join(c.proj.RootDir(), filepath.FromSlash(spec))
+	if s, err := os.Stat(file); err == nil && !s.Mode().IsRegular() {
+		// Do not try to read directories, devices, named pipes, ... Reading them can block forever
+		// or consume memory endlessly. For example "./../../../dev/zero" never reaches EOF.
+		c.writeCache(spec, nil)
+		return nil, fmt.Errorf("could not read reusable workflow file for %q: %q is not a regular file", spec, file)
+	}
 	src, err := os.ReadFile(file)
 	if err != nil {
 		c.writeCache(spec, nil) // Remember the workflow file was not found
